@@ -280,6 +280,13 @@ example :
     let c := Conc.run ⟨1, 100⟩ (Conc.init ⟨0, 0⟩ 2) evs
     c.zeroed = false ∧ c.admitted = 2 ∧ c.refusedN = 2 ∧ c.sh.failures = 2 := by decide
 
+/-- **why the update must be one atomic operation**: with `fail()` as a load followed by a store of the
+    loaded value + 1, two callers whose loads both precede the stores record two failures and leave the
+    counter at 1 – `conc_failures_exact` fails, and a breaker with threshold 2 stays closed -/
+theorem nonatomic_increment_loses_failures :
+    (Rmw.run 2 [.load 0, .load 1, .store 0, .store 1]).recorded = 2
+    ∧ (Rmw.run 2 [.load 0, .load 1, .store 0, .store 1]).failures = 1 := by decide
+
 /-- the tie of the concurrent model: every update of a breaker field in the current source is ONE atomic
     operation (no store whose value comes from an earlier load of the same field – the lost-update
     window `conc_failures_exact` excludes) -/
